@@ -44,6 +44,7 @@ void ys_compiler_set_includes(ys_compiler* c, int n, const char** names, const c
 void ys_compiler_set_atom_table(ys_compiler* c, const void* table, int entries, unsigned char threshold);
 void ys_compiler_set_strict_escape(ys_compiler* c, int on);
 /* returns the number of errors reported by yr_compiler_add_* */
+void ys_set_source_name(const char* name); /* name given to add_file / add_fd sources; NULL or "" = default */
 int ys_compiler_add(ys_compiler* c, int how, const char* src, size_t len, const char* ns);
 /* accumulated diagnostics: "E <code> <line> <msg>\n" / "W 0 <line> <msg>\n" */
 const char* ys_compiler_diag(ys_compiler* c);
